@@ -240,7 +240,12 @@ func (r *nodeRun) c08Checks(c *cluster, obs *vnode, rounds []string) {
 			r.consume(c, a, k, false)
 			r.consume(c, b, k, true)
 			st.C08Compared++
-			if pa, pb := maskDeals(publicProj(a, "")), maskDeals(publicProj(b, "")); pa != pb {
+			pa, pb := maskDeals(publicProj(a, "")), maskDeals(publicProj(b, ""))
+			// deals are addressed to one participant each: while a node is still collecting the deals addressed
+			// to it, its statuses (and the moment it leaves that phase) are its own, not public
+			if inDeals := "st=state_dkg_deals_await_confirmations "; strings.Contains(pa, inDeals) || strings.Contains(pb, inDeals) {
+				st.C08InDealsWindow++
+			} else if pa != pb {
 				r.mon(fmt.Sprintf("C08 prefix_agree: %s and %s consumed the same prefix of %d messages and differ %s", a.name, b.name, k, firstDiff(pa, pb)))
 			}
 		}
